@@ -191,7 +191,16 @@ pub fn jobs(ctx: &Ctx) -> Vec<Prog> {
                 // (also margins beyond 2^31 and 2^32: a 64-bit `usize` holds them, the native builder draws them)
                 2 => Op::Margin(*rng.pick(&[0usize, 1, 2, 4, 7, 16, 1000, 1 << 20, (1 << 31) - 1, 1 << 31, 2_147_483_560, (1 << 32) + 5, 1_000_000_000_000])),
                 3 => Op::Background(random_colour_string(&mut rng)),
-                4 => Op::Image(if rng.chance(1, 4) { String::new() } else { crate::render::random_image_string_raw(&mut rng) }),
+                // (one image in 150 is a data URI of 2 MiB, 2 MiB + 1 or 3 MiB: length is not a reason to treat it differently)
+                4 => Op::Image(if rng.chance(1, 150) {
+                    let n = [2_097_152usize, 2_097_153, 3_145_728][rng.below(3)];
+                    let head = "data:image/png;base64,";
+                    format!("{head}{}", "QUJD".repeat((n - head.len()) / 4 + 1))[..n].to_string()
+                } else if rng.chance(1, 4) {
+                    String::new()
+                } else {
+                    crate::render::random_image_string_raw(&mut rng)
+                }),
                 5 => Op::ImageBg(random_colour_string(&mut rng)),
                 6 => Op::ImageBgShape(rng.below(3)),
                 7 => Op::ImageSize(random_f(&mut rng), random_f(&mut rng)),
@@ -505,7 +514,7 @@ pub fn run(ctx: &Ctx) -> Report {
     let st = pool::run(&jobs, ctx.remaining(), |st, job, _| observe(ctx, st, job));
     let mut rep = Report::new(
         st,
-        "jobs = option programs: content in {empty, digits, alphanumeric, UTF-8 incl. NUL/newline/emoji, printable ASCII, 1600-1720 bytes and 3940-4050 digits (around the level-Q capacity of version 40), 8000 bytes (over capacity)} x 0..14 setter calls drawn from all 11 setters with repeats: colours documented (#RRGGBB[AA]) and malformed (22 fixed shapes incl. wrong lengths, non-hex, signs, non-ASCII split by byte pairs, 1 KiB, random), margins {0..16,1000,2^20,2^31-1,2^31,2147483560,2^32+5,10^12}, images incl. empty, XML-special strings, wrapped base64 data URIs and other strings with CR/LF/TAB, size pairs and position arrays of length 0..4 with NaN/inf/negative/1e300, size without position and vice versa, all levels, versions {1,2,5,10,40}; every call runs under catch_unwind (unwind = trap); qr(s) must equal the row-major 0/1 values of the native default build or be empty on error; qr_svg must equal byte for byte the SvgBuilder output configured through the public native API from a model of the option object (last valid value wins), or be empty on error; after a malformed colour string only well-formedness and equality outside fill/stroke values are asserted; distinct key = program hash; every program non-trivial",
+        "jobs = option programs: content in {empty, digits, alphanumeric, UTF-8 incl. NUL/newline/emoji, printable ASCII, 1600-1720 bytes and 3940-4050 digits (around the level-Q capacity of version 40), 8000 bytes (over capacity)} x 0..14 setter calls drawn from all 11 setters with repeats: colours documented (#RRGGBB[AA]) and malformed (22 fixed shapes incl. wrong lengths, non-hex, signs, non-ASCII split by byte pairs, 1 KiB, random), margins {0..16,1000,2^20,2^31-1,2^31,2147483560,2^32+5,10^12}, images incl. empty, 2-3 MiB data URIs, XML-special strings, wrapped base64 data URIs and other strings with CR/LF/TAB, size pairs and position arrays of length 0..4 with NaN/inf/negative/1e300, size without position and vice versa, all levels, versions {1,2,5,10,40}; every call runs under catch_unwind (unwind = trap); qr(s) must equal the row-major 0/1 values of the native default build or be empty on error; qr_svg must equal byte for byte the SvgBuilder output configured through the public native API from a model of the option object (last valid value wins), or be empty on error; after a malformed colour string only well-formedness and equality outside fill/stroke values are asserted; distinct key = program hash; every program non-trivial",
     );
     rep.expected_sets = vec![("setters_used", 11), ("size_position_combinations", 8)];
     rep.required_sets = vec![("setters_used", 11), ("size_position_combinations", 8)];
